@@ -195,7 +195,7 @@ def main():
     rng.shuffle(seqs)
     limit = 20000 if TIER == "quick" else 200000
     for seq in seqs[:limit]:
-        bat.case(hash(seq), nontrivial=any(o[0] == "schedule" for o in seq))
+        bat.case(hash(seq), nontrivial=any(o[0] == "schedule" for o in seq), desc=[list(o) for o in seq])
         pr = run_seq(seq, False)
         if pr:
             bat.fail("C13.registry", pr[0], {"seq": [list(o) for o in seq], "alive": False, "problems": pr[:3]}, "BaseObserver")
